@@ -1,16 +1,143 @@
 /-
-Property C06: derived GoString round-trips through the Go compiler.  (work in progress: the main
-theorems follow)
+Property C06: derived GoString round-trips through the Go compiler.
+
+"For every supported type with exported fields and every value with finite floats, the text returned
+by derived GoString is a Go expression that compiles in a package importing the type's package and
+evaluates to a value structurally equal to the original, including nil versus empty containers and
+the targets of pointers."
+
+Model (S/GoString.lean): `goString env L T v : G τ` — the text the emitted function returns, as a term
+of a deep embedding `G τ` of the little language plugin/gostring prints, mirroring
+`genStatement`/`genField` branch by branch; `evalG env L e n` — what the Go compiler and runtime make
+of such a text (`Res.panic` = rejected by the compiler or a run-time panic), threading the next fresh
+address `n`. Specification: `Spec.structEq` (Spec/StructEq.lean): same nil-ness at every pointer,
+slice and map, same lengths and key sets, equal leaves — written with no reference to the generator.
+
+The lexical layer — `fmt`'s `%#v` on a value of a basic type and the Go compiler reading that
+constant back — is the parameter `L : Lex τ` with the stated contract `L.Round`
+(`parse b (print b v)` is a value of type `b` that is `==` to `v`, for finite `v`). The theorems hold
+for every `L` meeting the contract; the tie exercises the real `%#v` + `go build` on every leaf of
+the corpus and nothing proves the contract about them. Type names in the text are likewise
+exercised by the tie only. Values are finite trees, hence acyclic.
+
+Only theorems and their non-vacuity examples live here; proofs are in Lemmas/GoString.lean. The
+examples reuse the concrete world of Lemmas/Equal.lean (`C02.env`: `Node`, `Pt`; `C02.y1`: a `Node`
+with a pointer to another `Node`, a string slice, a map to structs holding `-0.0`, a byte slice).
 -/
 import GoderiveModel.Lemmas.GoString
+
+set_option linter.unusedSimpArgs false
+set_option linter.unusedVariables false
 
 namespace Goderive.C06
 open Goderive Val GoString
 
-/-- The contract of the lexical layer is satisfiable: the value-level layer used by the driver
-(leaf text = the value, reading back maps `-0.0` to `+0.0`) meets it. -/
+/-! ### 1. The text compiles and evaluates to a structurally equal value -/
+
+/-- **C06, main clause (full strength: every type, every value).** On an environment whose declared
+struct types have exported fields only, for every well-typed value with finite floats, the text the
+emitted function returns evaluates without being rejected and without panicking, and the value it
+denotes is structurally equal to the original — nil versus empty containers and pointer targets
+included (`Spec.structEq`).
+
+`hs : SupportedGS env T` is the condition under which the generator emits the function at all; the
+proof does not use it: on a well-typed value the model never reaches a generator error. -/
+theorem gostring_roundtrip {τ : Type} (L : Lex τ) (hL : L.Round) (env : Env) (T : Ty) (v : Val) (n : Nat)
+    (hf : env.flagsOk = true) (hexp : ExportedOnly env = true) (hs : SupportedGS env T = true)
+    (ht : hasType env T v = true) (hfin : finiteFloats v = true) :
+    ∃ v' n', evalG env L (goString env L T v) n = .ok (v', n') ∧ Spec.structEq env T v v' = true := by
+  obtain ⟨v', n', hv, _, hrel⟩ := call_ok ((allP hf hL hexp v).top T n ht hfin) n (Nat.le_refl _)
+  exact ⟨v', n', hv, hrel.2.1⟩
+
+example : ∃ v' n', evalG C02.env valLex (goString C02.env valLex C02.tNode C02.y1) 1000 = .ok (v', n') ∧
+    Spec.structEq C02.env C02.tNode C02.y1 v' = true :=
+  gostring_roundtrip valLex valLex_round C02.env C02.tNode C02.y1 1000 C02.env_flagsOk (by decide)
+    (by decide) C02.y1_typed (by decide)
+
+/-- concretely: `struct{A, B []int64; P *int64}{A: nil, B: []int64{}, P: &7}` — the nil field is not
+assigned and stays nil, the empty slice comes back empty and non-nil, the pointer target is rebuilt -/
+example :
+    let T : Ty := .struct (.fcons (.slice (.basic (.int 64 true))) (.fcons (.slice (.basic (.int 64 true)))
+      (.fcons (.ptr (.basic (.int 64 true))) .fnil)))
+    evalG { decls := [] } valLex
+        (goString { decls := [] } valLex T (.struct (.scons .nilv (.scons (.slice 5 2 .snil) (.scons (.ptr 6 (.int 7)) .snil))))) 100
+      = .ok (.struct (.scons .nilv (.scons (.slice 101 0 .snil) (.scons (.ptr 102 (.int 7)) .snil))), 103) := by
+  simp [evalG, goString, top.eq_def, field.eq_def, fieldsG.eq_def, Env.under, isBasicTy, leaves, assign,
+    privMaskOf, exportedAt, evalE, evalBody, evalStmt, evalSeq, zero1, zero0, zeroFields, setNth, valLex, normLeaf]
+
+/-- The result is moreover a well-typed value of `T`. -/
+theorem gostring_typed {τ : Type} (L : Lex τ) (hL : L.Round) (env : Env) (T : Ty) (v : Val) (n : Nat)
+    (hf : env.flagsOk = true) (hexp : ExportedOnly env = true) (hs : SupportedGS env T = true)
+    (ht : hasType env T v = true) (hfin : finiteFloats v = true) :
+    ∀ v' n', evalG env L (goString env L T v) n = .ok (v', n') → hasType env T v' = true := by
+  intro v' n' hev
+  obtain ⟨v'', n'', hv, _, hrel⟩ := call_ok ((allP hf hL hexp v).top T n ht hfin) n (Nat.le_refl _)
+  have h : evalE env L (goString env L T v) n = .ok (v', n') := hev
+  rw [goString, hv] at h
+  cases h
+  exact hrel.1
+
+example : ∀ v' n', evalG C02.env valLex (goString C02.env valLex C02.tNode C02.y1) 1000 = .ok (v', n') →
+    hasType C02.env C02.tNode v' = true :=
+  gostring_typed valLex valLex_round C02.env C02.tNode C02.y1 1000 C02.env_flagsOk (by decide)
+    (by decide) C02.y1_typed (by decide)
+
+/-! ### 2. An evaluated result is a freshly allocated tree -/
+
+/-- **Nothing of the original is shared.** Every address (pointer target, backing array, map) of the
+evaluated value was allocated during the evaluation: it is `≥ n`, the next fresh address at the start. -/
+theorem gostring_fresh {τ : Type} (L : Lex τ) (hL : L.Round) (env : Env) (T : Ty) (v : Val) (n : Nat)
+    (hf : env.flagsOk = true) (hexp : ExportedOnly env = true) (hs : SupportedGS env T = true)
+    (ht : hasType env T v = true) (hfin : finiteFloats v = true) :
+    ∀ v' n', evalG env L (goString env L T v) n = .ok (v', n') → n ≤ n' ∧ ∀ a ∈ addrs v', n ≤ a := by
+  intro v' n' hev
+  obtain ⟨v'', n'', hv, hn, hrel⟩ := call_ok ((allP hf hL hexp v).top T n ht hfin) n (Nat.le_refl _)
+  have h : evalE env L (goString env L T v) n = .ok (v', n') := hev
+  rw [goString, hv] at h
+  cases h
+  exact ⟨hn, hrel.2.2⟩
+
+/-- Hence, evaluated above all addresses of the original, the result shares no pointer target,
+backing array or map with it. -/
+theorem gostring_disjoint {τ : Type} (L : Lex τ) (hL : L.Round) (env : Env) (T : Ty) (v : Val) (n : Nat)
+    (hf : env.flagsOk = true) (hexp : ExportedOnly env = true) (hs : SupportedGS env T = true)
+    (ht : hasType env T v = true) (hfin : finiteFloats v = true) (hn : ∀ a ∈ addrs v, a < n) :
+    ∀ v' n', evalG env L (goString env L T v) n = .ok (v', n') → ∀ a ∈ addrs v', a ∉ addrs v := by
+  intro v' n' hev a ha hav
+  have h1 := (gostring_fresh L hL env T v n hf hexp hs ht hfin v' n' hev).2 a ha
+  have h2 := hn a hav
+  omega
+
+example : ∀ v' n', evalG C02.env valLex (goString C02.env valLex C02.tNode C02.y1) 1000 = .ok (v', n') →
+    ∀ a ∈ addrs v', a ∉ addrs C02.y1 :=
+  gostring_disjoint valLex valLex_round C02.env C02.tNode C02.y1 1000 C02.env_flagsOk (by decide)
+    (by decide) C02.y1_typed (by decide) (by decide)
+
+/-! ### 3. The lexical contract, and why the hypotheses are there -/
+
+/-- The contract of the lexical layer is satisfiable: the value-level layer the driver runs (leaf
+text = the value, reading back maps `-0.0` to `+0.0`, as the tie observes of `%#v` + `go build`)
+meets it. -/
 theorem lex_contract_satisfiable : valLex.Round := valLex_round
 
 example : valLex.parse (.float 64) (valLex.print (.float 64) (.flt 64 (2 ^ 63))) = some (.flt 64 0) := by decide
+
+/-- "finite floats" is necessary: a NaN never comes back `==` to itself. -/
+example : hasType { decls := [] } (.basic (.float 64)) (.flt 64 0x7ff8000000000000) = true ∧
+    evalG { decls := [] } valLex (goString { decls := [] } valLex (.basic (.float 64)) (.flt 64 0x7ff8000000000000)) 0
+      = .ok (.flt 64 0x7ff8000000000000, 0) ∧
+    Spec.structEq { decls := [] } (.basic (.float 64)) (.flt 64 0x7ff8000000000000) (.flt 64 0x7ff8000000000000) = false := by
+  refine ⟨by goderive_eval, ?_, by rw [structEq_eval_basic]; decide⟩
+  simp [evalG, goString, top.eq_def, Env.under, evalE, evalBody, valLex, normLeaf, normZero]
+
+/-- "exported fields" is necessary: for `type S struct{ a int64 }` declared in the package of the
+derive call the text is `this.a = 5`, which an importing package may not write. -/
+example :
+    let env : Env := { decls := [{ under := .struct (.fcons (.basic (.int 64 true)) .fnil), canEq := true, privMask := [true] }] }
+    ExportedOnly env = false ∧
+    evalG env valLex (goString env valLex (.named 0) (.struct (.scons (.int 5) .snil))) 0 = .panic := by
+  refine ⟨by decide, ?_⟩
+  simp [evalG, goString, top.eq_def, field.eq_def, fieldsG.eq_def, Env.under, Env.decl?, assign,
+    privMaskOf, exportedAt, evalE, evalBody, evalStmt]
 
 end Goderive.C06
